@@ -182,8 +182,9 @@ def macro_texts(rng, valid_texts, n):
     return out
 
 
-def resource_forest(rng):
-    """many resource groups, some nested, whose members inherit the group's shift reference, limits or leaves"""
+def resource_forest(rng, inline_hours=False):
+    """many resource groups, some nested, whose members inherit the group's shift reference, its own working hours
+    (`inline_hours`: every group declares them itself, F52 region), limits or leaves"""
     n = rng.randint(9, 14)
     L = ['project p "P" 2025-01-06 +3w {', '  timezone "Etc/UTC"']
     if rng.random() < 0.4:
@@ -193,7 +194,14 @@ def resource_forest(rng):
     leaves = []
     for i in range(n):
         L.append(f'resource g{i} "G{i}" {{')
-        what = rng.choice(["shift", "shift", "shift2", "limits", "leaves", "both"])
+        what = rng.choice(["shift", "shift", "shift2", "limits", "leaves", "both", "hours"])
+        if inline_hours:
+            what = rng.choice(["hours", "hours", "hours+limits"])
+        if what.startswith("hours"):
+            L.append(rng.choice(['  workinghours mon - fri 8:00 - 16:00', '  workinghours mon - thu 9:00 - 12:00, 13:00 - 18:00',
+                                 '  workinghours sat 10:00 - 14:00']))
+        if what == "hours+limits":
+            L.append('  limits { weeklymax 30h }')
         if what in ("shift", "both"):
             L.append('  workinghours sh')
         if what == "shift2":
@@ -252,7 +260,7 @@ def run(chk):
     # wide and deep resource trees whose members inherit a shift / limits / leaves from their groups (F50 region: the
     # cost of building must stay proportional to the size, not double with every inheriting resource)
     for j in range(4 if tier == "quick" else 40):
-        wtexts.append((None, "resource-forest", resource_forest(chk.rng)))
+        wtexts.append((None, "resource-forest", resource_forest(chk.rng, inline_hours=(j % 2 == 1))))
     others = [(None, k) for _, k, _ in wtexts] + others
     texts = [t for _, _, t in wtexts] + texts
     outs = chk.impl.run(["J " + json.dumps({"op": "sched", "text": t, "budget": budget_of(q) if q else 60}) for (q, _), t in zip(others, texts)])
@@ -266,6 +274,7 @@ def run(chk):
             found.append((f"C11: {kind} project raised an internal error: {ob}", {"text": t, "kind": kind, "impl": ob}))
             continue
         if "error" in ob:
+            kinds[kind + ":rejected"] = kinds.get(kind + ":rejected", 0) + 1
             continue
         for sc in ob["scenarios"]:
             for fid, x in sc["tasks"].items():
